@@ -188,6 +188,24 @@ def _region_hit(chk, fid, reg, stats, timeout_ms):
     return None
 
 
+def _needs_long_string(pc):
+    """z3 builds witnesses for long strings in minutes and ignores its limits while doing so: paths whose condition
+    compares a string length with a constant above 200 are not cross-checked."""
+    stack = list(pc)
+    n = 0
+    while stack and n < 5000:
+        x = stack.pop()
+        n += 1
+        if z3.is_app(x):
+            ch = x.children()
+            if len(ch) == 2 and x.decl().kind() in (z3.Z3_OP_LE, z3.Z3_OP_GE, z3.Z3_OP_LT, z3.Z3_OP_GT, z3.Z3_OP_EQ):
+                for a, b in ((ch[0], ch[1]), (ch[1], ch[0])):
+                    if z3.is_int_value(a) and a.as_long() > 200 and z3.is_app(b) and b.decl().kind() == z3.Z3_OP_SEQ_LENGTH:
+                        return True
+            stack.extend(ch)
+    return False
+
+
 def replay_concrete(ob, values, choices):
     """Run the obligation body natively on concrete inputs.  Returns (results, trace, error)."""
     core = ConcreteCtx(values, choices)
@@ -377,10 +395,12 @@ def run_obligation(ob_id, opts):
                 path_ok = False
                 res['undecided'].append("%s: %s" % (chk.label, info))
         # CPython cross-check on a model of this path's condition
-        if path_ok and xcheck_budget > 0 and status == 'done' and path.checks and ob.replay:
+        if path_ok and xcheck_budget > 0 and status == 'done' and path.checks and ob.replay and \
+                not _needs_long_string(path.pc):
             xcheck_budget -= 1
             s = z3.Solver()
             s.set('timeout', timeout_ms)
+            s.set('rlimit', 1500000)      # witnesses that are expensive to build (long strings) are skipped
             for cnd in path.pc:
                 s.add(cnd)
             for fid, reg in path.regions:
